@@ -20,6 +20,8 @@ package mysql
 import (
 	"context"
 	"database/sql"
+	"database/sql/driver"
+	"errors"
 	"fmt"
 	"sync"
 	"time"
@@ -60,17 +62,25 @@ func (c *TableMetaCache) GetTableMeta(ctx context.Context, dbName, tableName str
 		return nil, fmt.Errorf("table name is empty")
 	}
 
-	conn, err := c.db.Conn(ctx)
-	if err != nil {
-		return nil, err
-	}
+	// A pooled connection the server has closed while it was idle shows on its first use. database/sql
+	// retries that transparently for sql.DB calls but not for a sql.Conn: retry here, every failed attempt
+	// removes one dead connection from the pool.
+	attempts := c.db.Stats().Idle + 2
+	for {
+		conn, err := c.db.Conn(ctx)
+		if err != nil {
+			return nil, err
+		}
 
-	tableMeta, err := c.tableMetaCache.GetTableMeta(ctx, dbName, tableName, conn)
-	if err != nil {
-		return nil, err
+		tableMeta, err := c.tableMetaCache.GetTableMeta(ctx, dbName, tableName, conn)
+		if err == nil {
+			return &tableMeta, nil
+		}
+		attempts--
+		if !errors.Is(err, driver.ErrBadConn) || attempts <= 0 {
+			return nil, err
+		}
 	}
-
-	return &tableMeta, nil
 }
 
 // Destroy
